@@ -17,7 +17,7 @@ from typing import Dict, List, Optional, Tuple
 from ..front_py import AnalysisError, FuncInfo, ClassInfo, walk_local, norm, dotted
 from ..front_lark import Grammar, mini_schema, shape_constructors
 from ..types_lite import members
-from ..dataflow import Provenance
+from ..dataflow import Provenance, Defs
 
 CLASS_TO_STRUCT = {
     "fcp.specs.metadata.MetaData": "MetaData",
@@ -101,7 +101,9 @@ class Shapes:
             d = dotted(e.func) or ""
             if d == "str":
                 return ("str",)
-            if d == "int" or d == "len":
+            if d == "len":
+                return ("int", None, "nonneg")
+            if d == "int":
                 return ("int",)
             if d == "float":
                 return ("float",)
@@ -124,7 +126,10 @@ class Shapes:
             cs = self.eng.cg.site_of.get(id(e))
             if cs and len(cs.callees) == 1:
                 rt = self.T.return_type(self.prog.functions[cs.callees[0]])
-                return self.type_shape(rt)
+                sh = self.type_shape(rt)
+                if sh[0] == "int" and cs.callees[0].endswith("encode_version"):
+                    return ("int", None, "nonneg")
+                return sh
         t = ft.of(e)
         return self.type_shape(t)
 
@@ -150,6 +155,21 @@ class Shapes:
         return ("?", str(u))
 
 
+def fmt_ftype(ft: tuple) -> str:
+    k = ft[0]
+    if k in ("u", "i"):
+        return "%s%d" % (k, ft[1])
+    if k in ("f32", "f64", "str"):
+        return k
+    if k == "array":
+        return "[%s, %d]" % (fmt_ftype(ft[1]), ft[2])
+    if k == "dyn":
+        return "[%s]" % fmt_ftype(ft[1])
+    if k == "opt":
+        return "Optional[%s]" % fmt_ftype(ft[1])
+    return str(ft[1])
+
+
 def compatible(shape: tuple, ftype: tuple, recs) -> Tuple[Optional[bool], str]:
     """Is a python value shape encodable (and decodable back equal) as FCP type `ftype`?"""
     k = ftype[0]
@@ -171,6 +191,10 @@ def compatible(shape: tuple, ftype: tuple, recs) -> Tuple[Optional[bool], str]:
         if shape[0] == "int":
             if len(shape) > 1 and shape[1] is not None and k == "u" and not (0 <= shape[1] < 2 ** ftype[1]):
                 return False, "constant %s does not fit u%d" % (shape[1], ftype[1])
+            const = len(shape) > 1 and shape[1] is not None
+            nonneg = const or (len(shape) > 2 and shape[2] == "nonneg")
+            if k == "u" and not nonneg:
+                return False, "a Python int that may be negative (the grammar's numbers are signed) is stored as u%d: a negative value decodes as value + 2^%d" % (ftype[1], ftype[1])
             return True, ""
         return False, "expects an integer, record provides %s" % shape[0]
     if k in ("f32", "f64"):
@@ -219,6 +243,7 @@ def run(eng, rep) -> None:
     rep.rule("R12.3", "type constructors used by reflection.fcp are handled by both codec dispatchers")
     rep.rule("R12.4", "key k is fed from attribute k; no serialised attribute dropped; every concrete Type overrides reflection")
     rep.rule("R12.5", "CLI encode names the struct describing FcpV2.reflection()")
+    rep.rule("R12.6", "reflection() returns fresh records: no module-level object returned, no in-place change of another record")
     rep.assume("byte-level losslessness of the codec itself is C01/C02 applied to reflection.fcp; float range metadata is stored as f64 exactly")
     g = Grammar(prog)
     recs = mini_schema(g, eng.read("src", "fcp", "reflection", "reflection.fcp"))
@@ -245,12 +270,20 @@ def run(eng, rep) -> None:
         rep.check(not missing and not extra, "R12.1", f.file, f.qual, "keys of %s record" % sname, "== fields of struct %s" % sname,
                   ("record lacks %s (encoding raises KeyError)" % missing if missing else "") + (" record has %s that struct %s does not declare (silently dropped by the encoder: lossy)" % (extra, sname) if extra else ""))
         vals = dict(zip(keys, d.values))
+        for kname, ve in vals.items():
+            lossy = None
+            if isinstance(ve, ast.BoolOp) and isinstance(ve.op, ast.Or):
+                lossy = "`%s`: a falsy but valid value (0, 0.0, '') is replaced by the alternative" % norm(ve, 50)
+            elif isinstance(ve, ast.IfExp) and not isinstance(ve.test, ast.Compare) and not (isinstance(ve.body, ast.Call) and isinstance(ve.body.func, ast.Attribute) and ve.body.func.attr == "reflection"):
+                lossy = "`%s`: the truthiness test also drops 0, 0.0 and ''" % norm(ve, 50)
+            if lossy:
+                rep.violation("R12.4", f.file, f.qual, "%s.%s = %s" % (sname, kname, norm(ve, 60)), "declared value is not reflected faithfully: " + lossy)
         for n, fid, ft in want:
             if n not in vals:
                 continue
             s = sh.of(f, vals[n])
             ok, why = compatible(s, ft, recs)
-            site = "%s.%s = %s" % (sname, n, norm(vals[n], 70))
+            site = "%s.%s : %s = %s" % (sname, n, fmt_ftype(ft), norm(vals[n], 70))
             if ok is True:
                 rep.ok("R12.1", f.file, f.qual, site, "kind %s encodable as %s" % (s[0], ft[0]))
             elif ok is False:
@@ -321,6 +354,24 @@ def run(eng, rep) -> None:
         if s not in described and s != "DictField":
             rep.info("R12.1", "src/fcp/reflection/reflection.fcp", "-", "struct %s" % s, "no reflection() record targets this struct")
 
+    # ---- R12.6: records are fresh ------------------------------------------------------
+    from ..dataflow import stores_in as _stores
+    for f in [x for x in prog.functions.values() if x.name == "reflection" and x.cls is not None]:
+        for n in walk_local(f.node):
+            if isinstance(n, ast.Return) and isinstance(n.value, ast.Name):
+                r = prog.resolve_name(f.module, f, n.value.id)
+                if r and r[0] == "var":
+                    rep.violation("R12.6", f.file, f.qual, norm(n, 50), "a module-level object is returned as a reflection record: every caller (and every schema) shares and can alter it")
+        defs = Defs(f.node)
+        for kind, tgt, st in _stores(f.node):
+            root = tgt
+            while isinstance(root, (ast.Attribute, ast.Subscript)):
+                root = root.value
+            if isinstance(root, ast.Name) and kind in ("mutcall", "sub-store", "aug"):
+                vals = [v for k, v, s_ in defs.values(root.id) if v is not None]
+                if any(isinstance(v, ast.Call) and isinstance(v.func, ast.Attribute) and v.func.attr == "reflection" for v in vals):
+                    rep.violation("R12.6", f.file, f.qual, norm(st, 60), "the record returned by another reflection() is modified in place: if that record is shared the description of other fields changes")
+    rep.ok("R12.6", "-", "-", "freshness of records", "scanned")
     # ---- R12.2 ---------------------------------------------------------------------
     refl_funcs = [f for f in prog.functions.values() if f.name == "reflection" and f.cls is not None]
     n_calls = 0
